@@ -209,6 +209,30 @@ def log_family(tier, seed):
                         want = np.array(flatten_model(mods, style), dtype=float)
                         if got.shape != want.shape or not np.allclose(got.values.astype(float), want, atol=1e-9):
                             msgs.append('restart log: flatten(%r) steps %r; model gives %r' % (style, got.Step.tolist(), want[:, 0].astype(int).tolist()))
+                # read, flatten, append a further log, flatten again with the same arguments: the second merge must include the appended runs
+                if nruns >= 2 and not truncated:
+                    parts, mods = [], []
+                    st = 0
+                    for nr in (4, 4, 3, 5):
+                        t_, m_ = synth_run(rng, KEYSETS[2], st, nr, 100, banner, timing, False)
+                        parts.append(t_)
+                        mods.append(m_)
+                        st += (nr - 1) * 100
+                    log4 = am.lammps.Log('LAMMPS (29 Oct 2020)\n' + parts[0] + parts[1])
+                    for style in ('last', 'first', 'all'):
+                        log4.flatten(style)
+                    log4.read('LAMMPS (29 Oct 2020)\n' + parts[2] + parts[3], append=True)
+                    for style in ('last', 'first', 'all'):
+                        got = log4.flatten(style).thermo
+                        want = np.array(flatten_model(mods, style), dtype=float)
+                        if got.shape != want.shape or not np.allclose(got.values.astype(float), want, atol=1e-9):
+                            msgs.append('flatten(%r) after read / flatten / read(append=True): steps %r; model gives %r' % (style, got.Step.tolist(), want[:, 0].astype(int).tolist()))
+                # blank lines of other kinds (CRLF line ends, whitespace-only lines) do not move the tables
+                if nruns <= 2 and not truncated:
+                    for nm, conv in (('CRLF', lambda t: t.replace('\n', '\r\n')), ('space-only blank lines', lambda t: t.replace('\n\n', '\n   \n')),
+                                     ('tab-only blank lines', lambda t: t.replace('\n\n', '\n\t\n'))):
+                        logv = am.lammps.Log(io.BytesIO(conv(text).encode()))
+                        check_sims(logv.simulations, model, msgs, tag='%s: ' % nm)
                 if len(samples) < 1:
                     samples.append({'case': key, 'log_head': text[:300]})
             except Exception as e:
